@@ -39,6 +39,8 @@ inductive Ev
   | bind (k : Kind) (id : Id) (perm : Bool) (n : Nat) (sem0 : Int)
       -- find_or_add_ident(id, FOA_GLOBAL_SCOPE) + `if (dn.<k> == -1) sem_value++; dn.<k> = n` (define_new_function,
       -- copy_function, define_variable, class definitions); sem0 = sem_value before
+  | fnReset                                         -- end of a function definition with the table pointers still inside
+                                                    -- the tables (abandoned literal): release everything, back to the start
   | cleanup                                         -- clean_up_locals() + free_unused_identifiers() (epilog, clean_parser)
   | memReq (blk size : Nat) (sync : Option (Nat × Nat))
       -- allocate_in_mem_block / add_to_mem_block / insert_in_mem_block; `sync` = (current_size, max_size) found in
@@ -149,6 +151,11 @@ def stepLoc (l : Loc) (e : Ev) : Loc × List Out :=
     let n := min k l.N
     let o := [Out.ev "local.argtypes" (l.tOff + n : Nat) l.tsize]
     if l.tOff + n ≤ l.tsize then (l, o) else l.crash o "table-read-out-of-bounds define_new_function"
+  | .fnReset =>
+    -- reads locals[0 .. lOff) while releasing; afterwards all cursors are at the start of the tables
+    if l.lOff + l.cur ≤ l.lsize then
+      ({ l with cur := 0, max := 0, lOff := 0, tOff := 0, frames := [] }, [Out.ev "local.fn_reset" (0 : Nat) l.lsize])
+    else l.crash [] "table-read-out-of-bounds function end"
   | .cleanup =>
     let o := [Out.ev "local.cleanup" (l.lOff + l.cur : Nat) l.lsize]
     if l.lOff + l.cur ≤ l.lsize then ({ l with cur := 0, max := 0, lOff := 0, tOff := 0, frames := [] }, o)
@@ -243,6 +250,7 @@ def stepIds (l l' : Loc) (s : Ids) (e : Ev) : Ids × List Out :=
     match l.frames.drop d with
     | [] => (s, [])
     | f :: _ => (reactivate (popMany (l.lOff + l.cur - (f.lo + f.c)) s) l'.lOff l'.cur, [])
+  | .fnReset => (popMany (l.lOff + l.cur) s, [])
   | .bind k id perm n sem0 =>
     let before := s.bnd k id
     let inc : Int := if before = -1 then 1 else 0
